@@ -122,6 +122,17 @@ class IStub(Stub):
         for k, v in d.items():
             self[k] = v
 
+    # mapping view of the recorded item assignments, so that a stub built by REDUCE + SETITEM(S) (e.g. an OrderedDict
+    # stand-in) can be star-star-unpacked as NEWOBJ_EX keyword arguments
+    def keys(self):
+        return list({k: None for k, _v in self.items})
+
+    def __getitem__(self, key):
+        for k, v in reversed(self.items):
+            if k == key:
+                return v
+        raise KeyError(key)
+
     def __call__(self, *args, **kwargs):
         inst = IStub(self._w, "call", self, args, kwargs)
         self._w.log.append(("call", inst))
